@@ -7,6 +7,7 @@ THEOREMS = [
     "C03_network_pledge_nonneg", "C03_pledge_update_never_blocks_refuted",
     "C03_network_pledge_nonneg_only_by_rejection",
     "C03_never_blocks_without_creation_deposit", "C03_never_blocks_when_others_cover",
+    "C03_duplicate_in_prove_commit_batch_aborts",
     "C03_queued_termination_keeps_pledge", "C03_processed_termination_releases_pledge",
     "C03_rejected_call_changes_nothing", "C03_failed_cron_only_drops_claim",
 ]
